@@ -9,9 +9,11 @@ import (
 	"fmt"
 	"os"
 	"path/filepath"
+	"runtime"
 	"sort"
 	"strconv"
 	"strings"
+	"sync"
 	"time"
 )
 
@@ -65,6 +67,7 @@ type Report struct {
 	TracesImpl    int64
 	Extra         map[string]interface{}
 
+	mu        sync.Mutex
 	viol      []viol
 	findings  []Finding
 	known     map[string]bool // signatures reported as known
@@ -113,6 +116,8 @@ func (r *Report) Thorough() bool { return r.Tier == "thorough" }
 // exhaustive:false.
 func (r *Report) TimeUp() bool {
 	if time.Now().After(r.Deadline) {
+		r.mu.Lock()
+		defer r.mu.Unlock()
 		r.Exhaustive = false
 		return true
 	}
@@ -159,17 +164,31 @@ func LoadFindings(id string) []Finding {
 }
 
 // Count adds n evaluated cases.
-func (r *Report) Count(n int64) { r.Evaluations += n }
+func (r *Report) Count(n int64) {
+	r.mu.Lock()
+	defer r.mu.Unlock()
+	r.Evaluations += n
+}
 
 // Seen records a distinct non-trivial case key.
-func (r *Report) Seen(key string) { r.Distinct[key] = struct{}{} }
+func (r *Report) Seen(key string) {
+	r.mu.Lock()
+	defer r.mu.Unlock()
+	r.Distinct[key] = struct{}{}
+}
 
 // SeenN adds n to the distinct count for cases whose distinctness is guaranteed by
 // construction (enumeration without repetition) — still a measured count.
-func (r *Report) SeenN(n int64) { r.distinctExtra += n }
+func (r *Report) SeenN(n int64) {
+	r.mu.Lock()
+	defer r.mu.Unlock()
+	r.distinctExtra += n
+}
 
 // Sample records up to 12 written-out cases.
 func (r *Report) Sample(s interface{}) {
+	r.mu.Lock()
+	defer r.mu.Unlock()
 	if len(r.Samples) < 12 {
 		r.Samples = append(r.Samples, s)
 	}
@@ -178,6 +197,8 @@ func (r *Report) Sample(s interface{}) {
 // Violation records a failing case with a stable signature. Only the first occurrence of a
 // signature is kept.
 func (r *Report) Violation(sig, detail string, replay interface{}) {
+	r.mu.Lock()
+	defer r.mu.Unlock()
 	for _, v := range r.viol {
 		if v.Sig == sig {
 			return
@@ -187,7 +208,33 @@ func (r *Report) Violation(sig, detail string, replay interface{}) {
 }
 
 // NViolations is the number of distinct signatures so far.
-func (r *Report) NViolations() int { return len(r.viol) }
+func (r *Report) NViolations() int { r.mu.Lock(); defer r.mu.Unlock(); return len(r.viol) }
+
+// Parallel runs fn(i) for i in [0,n) on all cores (fn must only use the thread-safe Report
+// methods and its own data). It stops handing out work once the deadline has passed.
+func (r *Report) Parallel(n int, fn func(i int)) {
+	var wg sync.WaitGroup
+	next := int64(-1)
+	var mu sync.Mutex
+	w := runtime.NumCPU()
+	for k := 0; k < w; k++ {
+		wg.Add(1)
+		go func() {
+			defer wg.Done()
+			for {
+				mu.Lock()
+				next++
+				i := int(next)
+				mu.Unlock()
+				if i >= n || r.TimeUp() {
+					return
+				}
+				fn(i)
+			}
+		}()
+	}
+	wg.Wait()
+}
 
 // Finish writes the evidence file, prints the verdict lines and exits.
 func (r *Report) Finish() {
